@@ -25,6 +25,8 @@ def decode(t, models=None):
         return dt.DDict(decode(t[1], models))
     if head == "Optional":
         return dt.DOptional(decode(t[1], models))
+    if head == "Tuple":
+        return dt.DTuple(*[decode(x, models) for x in t[1:]])
     if head == "Union":
         return dt.DUnion(*[decode(x, models) for x in t[1:]])
     if head == "Lit":
@@ -50,6 +52,8 @@ def describe(t):
         return f"Optional[{describe(t.type)}]"
     if isinstance(t, dt.DUnion):
         return "Union[" + ", ".join(describe(x) for x in t.types) + "]"
+    if isinstance(t, dt.DTuple):
+        return "Tuple[" + ", ".join(describe(x) for x in t.types) + "]"
     if isinstance(t, dt.DList):
         return f"List[{describe(t.type)}]"
     if isinstance(t, dt.DDict):
